@@ -16,7 +16,7 @@ META = {
         "below the tier's bound; every (pattern, adjacent-index set, adjacent-value set) of length <= 3 "
         "as Bivincular/Vincular/Covincular/equivalent MeshPatt; "
         "generated: mesh patterns up to length 4 against permutations up to length 8 with a density mixture, "
-        "mixed lists of classical and mesh-type patterns. Non-trivial: classical occurrences of the underlying "
+        "mixed lists of classical and mesh-type patterns, overlapping lazy enumerations with one pattern object. Non-trivial: classical occurrences of the underlying "
         "pattern exist and the shading / adjacency removes some but not all of them. Distinct = case content."
     ),
     "assumptions": [
@@ -179,7 +179,40 @@ def check_mixed(case):
     return OK(len(kinds) >= 2 and any(flags) and not all(flags), "mixed")
 
 
-CHECKS = {"mesh": check_mesh, "biv": check_biv, "mixed": check_mixed}
+def check_lazy(case):
+    """Overlapping lazy enumerations with the SAME pattern object in the SAME permutation
+    object, interleaved with counting / boolean queries: each must report the full set."""
+    patt, t = lib.to_lib(case["patt"]), tuple(case["t"])
+    r = lib.as_mesh_ref(case["patt"])
+    expected = sorted(ref.mesh_occ(r[0], r[1], t))
+    T = Perm(t)
+    its = [iter(patt.occurrences_in(T)), iter(T.occurrences_of(patt)), iter(patt.occurrences_in(T))]
+    got = [[], [], []]
+    done = [False, False, False]
+    for step, a in enumerate(case["sched"]):
+        if a >= 3:
+            # a full query in the middle of the open enumerations
+            if a == 3 and T.count_occurrences_of(patt) != len(expected):
+                return BAD("lazy_count_in_between", {"step": step, "want": len(expected)})
+            if a == 4 and T.contains(patt) != bool(expected):
+                return BAD("lazy_contains_in_between", {"step": step})
+            if a == 5 and sorted(patt.occurrences_in(T)) != expected:
+                return BAD("lazy_list_in_between", {"step": step})
+            continue
+        if done[a]:
+            continue
+        try:
+            got[a].append(next(its[a]))
+        except StopIteration:
+            done[a] = True
+    for a in range(3):
+        got[a].extend(its[a])
+        if sorted(got[a]) != expected or len(set(got[a])) != len(got[a]):
+            return BAD("lazy_overlapping_enumerations", {"enumeration": a, "got": sorted(got[a]), "expected": expected})
+    return OK(len(expected) >= 2, "lazy")
+
+
+CHECKS = {"mesh": check_mesh, "biv": check_biv, "mixed": check_mixed, "lazy": check_lazy}
 
 
 # ------------------------------------------------------------------ generators
@@ -265,7 +298,24 @@ def mixed_cases(draw):
     return {"t": t, "patts": patts}
 
 
+@st.composite
+def lazy_cases(draw):
+    p, t = draw(gen.planted(3, 7))
+    k = len(p)
+    kind = draw(st.sampled_from(["perm", "mesh", "mesh", "vin", "biv"]))
+    if kind == "perm":
+        patt = p
+    elif kind == "mesh":
+        patt = [p, draw(gen.shadings(k, draw(st.sampled_from(["sparse", "empty", "half"]))))]
+    elif kind == "vin":
+        patt = {"t": "vin", "p": p, "idx": sorted(draw(st.sets(st.integers(0, k), max_size=1)))}
+    else:
+        patt = {"t": "biv", "p": p, "idx": sorted(draw(st.sets(st.integers(0, k), max_size=1))), "val": sorted(draw(st.sets(st.integers(0, k), max_size=1)))}
+    return {"patt": patt, "t": t, "sched": draw(st.lists(st.integers(0, 5), max_size=14))}
+
+
 def shard_generated(acc, shard, nshards, n_mesh, n_biv, n_mixed):
+    engine.hyp_run(acc, "lazy", check_lazy, lazy_cases(), n_mixed, shard)
     engine.hyp_run(acc, "mesh", check_mesh, mesh_cases(), n_mesh, shard)
     engine.hyp_run(acc, "biv", check_biv, biv_cases(), n_biv, shard)
     engine.hyp_run(acc, "mixed", check_mixed, mixed_cases(), n_mixed, shard)
